@@ -29,6 +29,9 @@ pub struct GroupResult {
     pub outcomes: Vec<u64>,
     /// machinery problems (child could not be started, protocol error)
     pub errors: Vec<String>,
+    /// the group was abandoned after this case because too many children stalled or died
+    /// (each such event is reported; the cases after it were not run)
+    pub aborted_after: Option<usize>,
 }
 
 /// Run one group of cases in child processes. `args` are passed to the current executable
@@ -38,7 +41,7 @@ pub struct GroupResult {
 ///   v <idx> <clause>|<msg>   case idx violates a per-case clause
 ///   o <hash>           an observed outcome hash
 ///   d <cases> <transitions> <nontrivial>   finished
-pub fn run_group(args: &[String], horizon: Duration, mem_kb: u64, first: usize) -> GroupResult {
+pub fn run_group(args: &[String], horizon: Duration, mem_kb: u64, first: usize, max_restarts: usize) -> GroupResult {
     let exe = std::env::current_exe().expect("current_exe");
     let mut res = GroupResult::default();
     let mut start = first;
@@ -135,8 +138,8 @@ pub fn run_group(args: &[String], horizon: Duration, mem_kb: u64, first: usize) 
         // cases before idx were completed by this child but its summary line is lost: count them
         res.cases += (idx + 1 - start) as u64;
         start = idx + 1;
-        if restarts > 200 {
-            res.errors.push("too many child restarts in one group".to_string());
+        if restarts >= max_restarts {
+            res.aborted_after = Some(idx);
             return res;
         }
     }
